@@ -130,7 +130,18 @@ Shapes == <<
   [Base EXCEPT !.inputs = <<<<100, 47, 46>>>>, !.output = outS, !.r = TRUE],                    \* 55 d/. (README: same as d/) (known: slashdot)
   [Base EXCEPT !.inputs = <<d_>>, !.output = outS, !.r = TRUE, !.filters = <<Inc(G_cjs), Exc(<<100, 47, 42>>)>>],   \* 56 include then exclude d/*: the last match decides
   [Base EXCEPT !.inputs = <<dot>>, !.output = outS, !.r = TRUE, !.a = TRUE, !.match = <<G_css>>, !.filters = <<Exc(<<100, 47, 42, 42>>)>>],  \* 57 --match and --exclude together
-  [Base EXCEPT !.inputs = <<dS>>, !.output = dlS, !.r = TRUE, !.s = TRUE]                       \* 58 sync onto itself through a directory link (known: syncalias)
+  [Base EXCEPT !.inputs = <<dS>>, !.output = dlS, !.r = TRUE, !.s = TRUE],                      \* 58 sync onto itself through a directory link (known: syncalias)
+  [Base EXCEPT !.stdin = TRUE, !.type = "text/html"],                                           \* 59 stdin with a media type -> stdout
+  [Base EXCEPT !.stdin = TRUE, !.type = "json", !.mime = TRUE, !.output = <<111, 46, 106, 115, 111, 110>>],   \* 60 stdin --mime -> o.json
+  [Base EXCEPT !.inputs = <<dS>>, !.output = outS, !.r = TRUE, !.preserve = <<"mode", "timestamps">>],    \* 61 -p mode,timestamps
+  [Base EXCEPT !.inputs = <<a_js>>, !.output = a_js, !.preserve = <<"ownership">>],             \* 62 -p ownership, in place
+  [Base EXCEPT !.inputs = <<dot>>, !.output = outS, !.r = TRUE, !.preserve = <<"all">>],        \* 63 -p all without sync: links are left out
+  [Base EXCEPT !.inputs = <<dS>>, !.output = outS, !.r = TRUE, !.filters = <<Inc(G_cjs)>>],     \* 64 --include alone excludes nothing
+  [Base EXCEPT !.inputs = <<dot>>, !.output = outS, !.r = TRUE, !.filters = <<Exc(G_css)>>],    \* 65 --exclude=*.css: * does not cross a slash
+  [Base EXCEPT !.inputs = <<dot>>, !.output = outS, !.r = TRUE, !.match = <<<<99, 42>>, <<42, 46, 104, 116, 109, 108>>>>],   \* 66 --match=c* --match=*.html
+  [Base EXCEPT !.inputs = <<dot>>, !.output = outS, !.r = TRUE, !.a = TRUE, !.filters = <<Exc(<<42, 42, 47, 101, 47, 42, 42>>), Exc(<<46, 104, 100, 47, 42, 42>>)>>],  \* 67 --exclude=**/e/** --exclude=.hd/**
+  [Base EXCEPT !.inputs = <<o_html>>],                                                          \* 68 html -> stdout
+  [Base EXCEPT !.inputs = <<dot>>, !.b = TRUE, !.r = TRUE, !.match = <<G_css>>]                 \* 69 bundle of all css -> stdout
 >>
 
 Mk(S, k) == [tree |-> TreeOf(S), inv |-> Shapes[k]]
